@@ -150,8 +150,8 @@ def k2(ctx, kr):
     ev = []; st = {}
     NS = 2
     def st_create(M, fr, callee, a):
-        sf = [f for f, _ in P.structs.get('Source', [])]
-        srcs = VecV([Agg('()', [Agg('FileId', [Str('f%d' % i)]), Agg('Source', [Agg('FileId', [Str('f%d' % i)]), Str(str(i)), none()])]) for i in range(NS)])
+        from . import lspcommon as LSP_
+        srcs = VecV([Agg('()', [Agg('FileId', [Str('f%d' % i)]), LSP_.new_source(M, P, 'f%d' % i, str(i))]) for i in range(NS)])
         return ok(Agg('project::FileBackedProject', [srcs]))
     def st_tok(M, fr, callee, a):
         i = int(M.deref(a[0]).conc())
@@ -208,7 +208,8 @@ def k2b(ctx, kr):
     ev = []; st = {}
     NS = 2
     def st_create(M, fr, callee, a):
-        srcs = VecV([Agg('()', [Agg('FileId', [Str('f%d' % i)]), Agg('Source', [Agg('FileId', [Str('f%d' % i)]), Str(str(i)), none()])]) for i in range(NS)])
+        from . import lspcommon as LSP_
+        srcs = VecV([Agg('()', [Agg('FileId', [Str('f%d' % i)]), LSP_.new_source(M, P, 'f%d' % i, str(i))]) for i in range(NS)])
         return ok(Agg('project::FileBackedProject', [srcs]))
     def st_parse(M, fr, callee, a):
         i = int(M.deref(a[0]).conc())
@@ -434,7 +435,7 @@ def k5(ctx, kr):
                         k = val + 1
                     sel.append(k)
                 st['sel'] = sel
-                srcs = VecV([Agg('()', [Agg('FileId', [Str(f)]), LSP.mkstruct(P, 'Source', file_id=Agg('FileId', [Str(f)]), data=Str('text of %s ' % f * 4), library=none())]) for f in FILES[:nproj]])
+                srcs = VecV([Agg('()', [Agg('FileId', [Str(f)]), LSP.new_source(M, P, f, 'text of %s ' % f * 4)]) for f in FILES[:nproj]])
                 project = Ref(Cell(Agg('project::FileBackedProject', [srcs])))
                 ds = [LSP.mkstruct(P, 'Diagnostic', code=Str('P00%02d' % (30 + j)), description=Str('desc'), primary=label(ALL[k], 0, 0, 'label'), described=VecV(), secondary=VecV()) for j, k in enumerate(sel)]
                 return M.call_fn(key, [Ref(Cell(VecV(ds))), some(project), False])
@@ -516,7 +517,7 @@ def _k6_run(ctx, kr, role_prefix):
         fid = M.deref(a[0]); p_ = pth(M, fid)
         st['loaded'].append(p_)
         if FS.get(p_) != 'file': return err(Agg('Diagnostic', [Str('P0026'), Str('unreadable ' + str(p_))]))
-        return ok(LSP.mkstruct(P, 'Source', file_id=deep_clone(fid), data=Str('text of ' + p_), library=none()))
+        return ok(LSP.new_source(M, P, deep_clone(fid), 'text of ' + p_))
     from . import lspcommon as LSP
     stubs = {r'^std::fs::canonicalize(::<.*>)?$': st_canon, r'^std::fs::metadata(::<.*>)?$': st_meta, r'^std::fs::(Metadata|FileType)::(is_dir|is_file|is_symlink)$': st_kind,
              r'^std::fs::DirEntry::(file_type|metadata)$': st_meta, r'^std::fs::Metadata::file_type$': lambda M, fr, c, a: M.deref(a[0]), r'^std::path::Path::(is_file|is_dir|is_symlink|exists)$': st_pathis,
